@@ -447,11 +447,9 @@ namespace CaddyModel.C20
     1 hash on an integer field (passed through)                             hash_full_fails
     2 cookie filter on a string field (passed through)                      hash_full_fails
     3 filter encoder: `first_error>msg → delete` does not run for a field under zap.Namespace("first_error")   fenc_namespace_full_fails
-    4 filter encoder wrapped in a filter encoder: the inner `request>uri → delete` does not run   fenc_wrapped_encoder_full_fails
     (the former query / ip_mask / trailer / filter-encoder witnesses are regression cases in corpus/C20/ now) -/
 def witnessLines : List String := [
   "C20 flt hash 737461747573 o 0 .",
   "C20 flt cookie:d,736964,- 636f6f6b6965 s 7369643d3031323334353637383961626364656630313233343536373839616263646566 .",
-  "C20 fenc 0 66697273745f6572726f723e6d7367@delete n:66697273745f6572726f72/l:6d7367:s:757073747265616d2073616964203031323334353637383961626364656630313233343536373839616263646566 .",
-  "C20 fenc2 0 . 726571756573743e757269@delete o:72657175657374/l:757269:s:2f783f746f6b656e3d3031323334353637383961626364656630313233343536373839616263646566/c"]
+  "C20 fenc 0 66697273745f6572726f723e6d7367@delete n:66697273745f6572726f72/l:6d7367:s:757073747265616d2073616964203031323334353637383961626364656630313233343536373839616263646566 ."]
 end CaddyModel.C20
